@@ -3,6 +3,8 @@
     update, parsed by a second handle (checks/c11.py). *)
 From Coq Require Import ZArith List Lia Bool.
 From SF Require Import Stream StreamProofs.
+From SF Require Api ApiProofs.
+From SFGen Require Gen_Enums.
 Import ListNotations.
 Local Open Scope Z_scope.
 
@@ -22,4 +24,13 @@ Theorem updates_do_not_change_the_audio : forall B, (0 < B)%nat -> forall enc de
   concat calls1 = concat calls2 -> written_file B enc calls1 = written_file B enc calls2.
 Proof. exact write_partition_independent. Qed.
 
+(** the frame count a header update announces (sf.frames) and the length of the data region are not reduced by rewriting frames
+    that were written before: an update issued with the write position in the middle of the file still describes all of it *)
+Theorem rewriting_earlier_frames_keeps_the_announced_count : forall n xs s,
+  ApiProofs.wf s -> Api.mode s <> Gen_Enums.c_SFM_READ -> 0 < n -> Api.len xs = n * Api.ch s -> Api.wcur s + n <= Api.frames s ->
+  Api.frames (fst (Api.api_write true n (n * Api.ch s) xs s)) = Api.frames s /\
+  Api.len (Api.data (fst (Api.api_write true n (n * Api.ch s) xs s))) = Api.len (Api.data s).
+Proof. exact ApiProofs.overwrite_keeps_frames. Qed.
+
 Print Assumptions image_holds_whole_block_prefix.
+Print Assumptions rewriting_earlier_frames_keeps_the_announced_count.
